@@ -410,6 +410,42 @@ theorem cond_list_current :
     eval envCur .null 3 plan .null h = eval envDoc .null 3 plan .null h := by
   decide
 
+/-- map equality is "same key set, equal values": a member whose key the other map lacks makes the maps
+different even when it holds null (found by `kvGet … = none → no`, never by comparing with a missing
+value) -/
+theorem eqVals_map_missing_key (dev : Dev) (h : Heap) (n : Nat) (seen : List (Nat × Nat)) (a b : Nat) (k : Bytes) (v : Val)
+    (hk : (k, v) ∈ h.mapAt a) (hno : kvGet k (h.mapAt b) = none) (hlen : (h.mapAt a).length = (h.mapAt b).length)
+    (hseen : seen.contains (a, b) = false) :
+    eqVals dev h (n + 1) seen (.mref a) (.mref b) = .no ∨ eqVals dev h (n + 1) seen (.mref a) (.mref b) = .amb := by
+  simp only [eqVals, hlen, hseen, ne_eq, not_true_eq_false, if_false, Bool.false_eq_true]
+  have hmem : EqRes.no ∈ (h.mapAt a).map (fun kv =>
+      match kvGet kv.1 (h.mapAt b) with
+      | some w => eqVals dev h n ((a, b) :: seen) kv.2 w
+      | none => EqRes.no) := by
+    refine List.mem_map.mpr ⟨(k, v), hk, ?_⟩
+    simp [hno]
+  have hc : ((h.mapAt a).map (fun kv =>
+      match kvGet kv.1 (h.mapAt b) with
+      | some w => eqVals dev h n ((a, b) :: seen) kv.2 w
+      | none => EqRes.no)).contains EqRes.no = true := by
+    simpa using hmem
+  unfold eqCombine
+  simp only [hc, if_true]
+  split
+  · exact Or.inr rfl
+  · split
+    · exact Or.inr rfl
+    · exact Or.inl rfl
+
+/-- `{a: 1, b: null}` and `{a: 1, c: 2}` (same size, one key renamed, the extra key of the first holding
+null) are different in both argument orders, and a map equals a reordered copy of itself -/
+theorem equal_maps_same_keys :
+    let h : Heap := [Cell.map [(b!"a", .int 1), (b!"b", .null)], Cell.map [(b!"a", .int 1), (b!"c", .int 2)],
+                     Cell.map [(b!"b", .null), (b!"a", .int 1)]]
+    Spec.equal Dev.current h [.mref 0, .mref 1] = .ok false ∧
+    Spec.equal Dev.current h [.mref 1, .mref 0] = .ok false ∧
+    Spec.equal Dev.current h [.mref 0, .mref 2] = .ok true := by decide
+
 /-- closed form: the sum of int64 arguments is the mathematical sum wrapped once (the running int64
 accumulator of the code loses nothing more than that) -/
 theorem sum_ints (x : Int) (xs : List Int) (hx : inInt64 x) :
